@@ -34,6 +34,9 @@ func runBounded(repo, test, tier string, seed int) (*boundedResult, string, erro
 	if test == "TestC16" {
 		cmd = exec.Command("/verif/bounded/run_inpkg.sh", "mdns", "/verif/bounded/inpkg/mdns_c16_test.go", test, out)
 	}
+	if test == "TestC17Hub" {
+		cmd = exec.Command("/verif/bounded/run_inpkg.sh", "hub", "/verif/bounded/inpkg/hub_c17_test.go", test, out)
+	}
 	if test == "TestC17" {
 		cmd = exec.Command("/verif/bounded/run_inpkg.sh", "mdns", "/verif/bounded/inpkg/mdns_c17_test.go", test, out)
 	}
@@ -94,7 +97,7 @@ func boundedCheck(prop, test, repo, tier string, seed int, kfs []knownFinding, r
 		}
 		if !explained {
 			vio++
-			path := filepath.Join(replays, fmt.Sprintf("%s-bounded-%s.json", prop, sanitize(c)))
+			path := filepath.Join(replays, fmt.Sprintf("%s-bounded-%s-%s.json", prop, test, sanitize(c)))
 			writeJSON(path, map[string]interface{}{"property": prop, "obligation": "bounded:" + prop + ":" + c, "failing_input_and_observation": r.Examples[c], "count": r.Failures[c],
 				"how_to_replay": "run the real function of /repo on the input shown (see /verif/bounded/" + strings.ToLower(prop) + "_test.go)", "reproduced_on_real_code": true})
 			fmt.Printf("  bounded stand-in: %d failing inputs of category %s, e.g. %s\n", r.Failures[c], c, truncate(r.Examples[c], 300))
